@@ -301,6 +301,6 @@ def gen_traces(n: int, seed: int, mix=(("valid", 0.35), ("mixed", 0.25), ("press
     if procs == 1:
         out = [_chunk(j) for j in jobs]
     else:
-        with mp.get_context("fork").Pool(procs) as pool:
+        with common.pool(procs) as pool:
             out = pool.map(_chunk, jobs)
     return [tr for chunk in out for tr in chunk]
